@@ -1,9 +1,9 @@
 SPECIFICATION Spec
 CONSTANTS NClasses = 1
  Homes = {"A"}
- Nla = {"none", "one", "pair", "guess", "mixed"}
+ Nla = {}
  RunCode = TRUE
- ZeroK = TRUE
- WithU = FALSE
+ ZeroK = FALSE
+ WithU = TRUE
 INVARIANT Emit
 CHECK_DEADLOCK FALSE
